@@ -315,7 +315,7 @@ func init() {
 			return s
 		},
 		Run:  c14Run,
-		Rule: "Part A — schedules: real plush code (overlay: scheduling points at every function entry/loop head of the root package and at every mutex operation, sync replaced by a scheduler-aware shim) run under a cooperative scheduler; ALL interleavings with at most B preemptions are enumerated depth-first (choice-prefix replay; replay divergence is a hard error) for: one parsed template executed by 2 threads with own root contexts / with children of one shared parent (13 templates, one per construct class, different data per thread), Render of the same text with a cold cache, Parse vs CacheSet; oracle: every thread's (out, err) equals its solo result, no deadlock, no panic. Context operations: every pair of 2-operation threads over {Set(k,1), Set(k,2), Value(k), Has(k), Set(j,5), Value(j)} on one context with UNBOUNDED preemptions (as long as the scenario has at most 48 scheduling points, which holds on the unchanged tree; otherwise the largest bound fitting the budget); every recorded call/return history must be linearizable w.r.t. a sequential map (brute force); New() racing with Set/Value with bound 1. Part B — data races: the same scenario bodies free-running with 2, 8 and 32 goroutines in a separate -race build, repeated; any race report or 'concurrent map' fatal error is a violation attributed to the scenario. Non-trivial: all scenarios (>=2 threads).",
+		Rule: "Part A — schedules: real plush code (overlay: scheduling points at every function entry/loop head of the root package and at every mutex operation, sync replaced by a scheduler-aware shim) run under a cooperative scheduler; ALL interleavings with at most B preemptions are enumerated depth-first (choice-prefix replay; replay divergence is a hard error) for: one parsed template executed by 2 threads with own root contexts / with children of one shared parent (13 templates, one per construct class, different data per thread), Render of the same text with a cold cache, Parse vs CacheSet; oracle: every thread's (out, err) equals its solo result, no deadlock, no panic. Context operations: every pair of 2-operation threads over {Set(k,1), Set(k,2), Value(k), Has(k), Set(j,5), Value(j)} on one context with UNBOUNDED preemptions (as long as the scenario has at most 30 scheduling points, which holds on the unchanged tree; otherwise the largest bound fitting the budget); every recorded call/return history must be linearizable w.r.t. a sequential map (brute force); New() racing with Set/Value with bound 1. Part B — data races: the same scenario bodies free-running with 2, 8 and 32 goroutines in a separate -race build, repeated; any race report or 'concurrent map' fatal error is a violation attributed to the scenario. Non-trivial: all scenarios (>=2 threads).",
 		Bound: func(th bool) string {
 			if th {
 				return "Part A: per scenario the largest preemption bound b with n^(b+1)/b! <= 2e8 scheduling points (n = points of the default schedule; reported per case, typically 2-3), 2 and 3 threads; context ops unbounded for 2 threads x 2 ops and 3 threads x 1 op, bound 3 for 3 threads (2+1+1 ops); Part B: 200 repetitions x {2,8,32} goroutines"
@@ -478,7 +478,7 @@ func c14CtxCase(t *engine.T, ops [][]int, bound int) {
 			if os.Getenv("C14_DEBUG") != "" {
 				fmt.Fprintf(os.Stderr, "ctxops probe: %d points\n", len(x.Points))
 			}
-			if n := float64(len(x.Points)); n > 48 {
+			if n := float64(len(x.Points)); n > 30 {
 				budget := 2e5
 				if t.Thorough {
 					budget = 2e7
